@@ -30,10 +30,11 @@ import Verif.Model.Common
   * admin type is a `Bool` (`super`): the admin API validates `ADMIN | SUPER_ADMIN`.
   * A Go panic is `M.crash` (`Update` on an unknown id, `Remove` indexing past `sorted`).
 
-  `Variant` selects between the code *as it is* (`Variant.coded`) and the minimally repaired
-  code described in notes/C16.md (`Variant.fixed`).  `current` is what the driver runs and what
-  the un-suffixed theorems talk about: switching it is the one-line change that goes with a
-  `fix:` commit in /repo.
+  `Variant` selects which repairs of notes/C16.md are in the modelled code: `Variant.coded` is the
+  tree before the `fix:` commits e3cc9eb / 80a4538, `Variant.updateFixed` is /repo at HEAD
+  (`Update` repaired, D18 open), `Variant.fixed` has both repairs.  `current` is what the driver
+  runs and what the un-suffixed theorems talk about: switching it is the one-line change that
+  goes with a `fix:` commit in /repo.
 -/
 namespace Verif.Admin
 open Verif
@@ -213,11 +214,15 @@ structure Variant where
   fixRename : Bool
   deriving DecidableEq, Repr
 
+/-- the tree before the `fix:` commits e3cc9eb (D3) and 80a4538 (D2) -/
 def Variant.coded : Variant := ⟨false, false⟩
+/-- /repo at HEAD: `Update` repaired (e3cc9eb, 80a4538), provisioner rename still stale (D18) -/
+def Variant.updateFixed : Variant := ⟨true, false⟩
+/-- both repairs -/
 def Variant.fixed : Variant := ⟨true, true⟩
 
-/-- The code modelled by the driver and by the un-suffixed theorems. -/
-def current : Variant := Variant.coded
+/-- The code modelled by the driver and by the un-suffixed theorems: /repo as it stands. -/
+def current : Variant := Variant.updateFixed
 
 def setTy (id : Str) (t : Bool) (a : Adm) : Adm := if a.id = id then { a with super := t } else a
 
